@@ -463,19 +463,27 @@ func (svr *Service) handleConnection(ctx context.Context, conn net.Conn, interna
 			conn.Close()
 		}
 	case *msg.NewVisitorConn:
-		if err = svr.RegisterVisitorConn(conn, m); err != nil {
-			xl.Warnf("register visitor conn error: %v", err)
-			_ = msg.WriteMsg(conn, &msg.NewVisitorConnResp{
-				ProxyName: m.ProxyName,
-				Error:     util.GenerateResponseErrorString("register visitor conn error", err, lo.FromPtr(svr.cfg.DetailedErrorsToClient)),
-			})
-			conn.Close()
-		} else {
-			verifhook.At("svc.visitorconn.accepted", "proxy", m.ProxyName)
-			_ = msg.WriteMsg(conn, &msg.NewVisitorConnResp{
+		// The answer goes out before the proxy side gets hold of the connection: bytes a backend sends at once must
+		// not reach the visitor ahead of (or mixed into) the answer it is waiting for.
+		answered := false
+		accepted := func() error {
+			answered = true
+			return msg.WriteMsg(conn, &msg.NewVisitorConnResp{
 				ProxyName: m.ProxyName,
 				Error:     "",
 			})
+		}
+		if err = svr.RegisterVisitorConn(conn, m, accepted); err != nil {
+			xl.Warnf("register visitor conn error: %v", err)
+			if !answered {
+				_ = msg.WriteMsg(conn, &msg.NewVisitorConnResp{
+					ProxyName: m.ProxyName,
+					Error:     util.GenerateResponseErrorString("register visitor conn error", err, lo.FromPtr(svr.cfg.DetailedErrorsToClient)),
+				})
+			}
+			conn.Close()
+		} else {
+			verifhook.At("svc.visitorconn.accepted", "proxy", m.ProxyName)
 		}
 	default:
 		log.Warnf("Error message type for the new connection [%s]", conn.RemoteAddr().String())
@@ -658,7 +666,7 @@ func (svr *Service) RegisterWorkConn(workConn net.Conn, newMsg *msg.NewWorkConn)
 	return ctl.RegisterWorkConn(workConn)
 }
 
-func (svr *Service) RegisterVisitorConn(visitorConn net.Conn, newMsg *msg.NewVisitorConn) error {
+func (svr *Service) RegisterVisitorConn(visitorConn net.Conn, newMsg *msg.NewVisitorConn, accepted func() error) error {
 	visitorUser := ""
 	// TODO(deprecation): Compatible with old versions, can be without runID, user is empty. In later versions, it will be mandatory to include runID.
 	// If runID is required, it is not compatible with versions prior to v0.50.0.
@@ -670,5 +678,5 @@ func (svr *Service) RegisterVisitorConn(visitorConn net.Conn, newMsg *msg.NewVis
 		visitorUser = ctl.loginMsg.User
 	}
 	return svr.rc.VisitorManager.NewConn(newMsg.ProxyName, visitorConn, newMsg.Timestamp, newMsg.SignKey,
-		newMsg.UseEncryption, newMsg.UseCompression, visitorUser)
+		newMsg.UseEncryption, newMsg.UseCompression, visitorUser, accepted)
 }
